@@ -17,6 +17,7 @@ mod outparse;
 mod procrun;
 mod report;
 mod rng;
+mod selftest;
 mod world;
 mod props {
     pub mod c01;
@@ -117,6 +118,19 @@ fn main() {
         return;
     }
 
+    if cmd == "selftest-diff" {
+        let env = Env::from_env("quick");
+        selftest::diff_case(&env, args[2].parse().unwrap());
+        env.cleanup();
+        return;
+    }
+    if cmd == "selftest-digest" {
+        let env = Env::from_env("quick");
+        let n: usize = args.get(2).and_then(|s| s.parse().ok()).unwrap_or(2000);
+        let code = selftest::run(&env, n);
+        env.cleanup();
+        std::process::exit(code);
+    }
     let env = Env::from_env(&tier);
     println!("VERIF_SEED={} tier={} workers={}", env.seed, env.tier, env.workers);
     let code = if let Some(path) = replay {
